@@ -678,7 +678,7 @@ fn case_detail<M: Debug>(
     tier: &str,
 ) -> J {
     json!({
-        "codec": e_name, "kind_of_case": leg, "seq": seq, "cuts": cuts, "tier": tier,
+        "codec": e_name, "kind_of_case": leg, "seq": seq, "cuts": cuts, "tier": tier, "pool_mode": crate::model::POOL_MODE.load(std::sync::atomic::Ordering::Relaxed),
         "messages": shown, "messages_debug": msgs.iter().map(|m| format!("{:?}", m)).collect::<Vec<_>>(),
         "stream_hex": hex(data), "law": f.law, "frame": f.frame,
         "explanation": f.text, "what": f.text,
